@@ -41,6 +41,7 @@ COMPONENTS = {"real": ["pydsol.core.statistics (WeightedTally, TimestampWeighted
               "stub": ["threading.Thread.start / thread scheduling (baton scheduler, two-thread layer only)"]}
 ASSUMPTIONS = ["weak fit for the single-caller layer (history + exact reference model, no scheduler or clock); the two-thread layer runs a registering and a querying caller thread under the baton scheduler and judges only the state after both have finished (values read during the overlap and concurrent registration from two threads are not judged: the property does not promise them)",
                "weighted_mean() with zero total weight must merely not raise",
+               "int timestamps beyond 2**53 (nanosecond clocks) are only offered to the plain TimestampWeightedTally as plain ints: the event-publishing variants and quantity observations convert timestamps to float, which the property does not forbid",
                "n/min/max of the timestamp variant and last_value() after close are not judged (docstring and code disagree; the property is silent)"]
 
 W_GETTERS = [("n",), ("min",), ("max",), ("weighted_sum",), ("weighted_mean",),
@@ -246,12 +247,17 @@ def generate(seed, tier, idx=0):
         t = rng.choice([0.0, 0.0, 1.0, 10.0, 100.5])
         closed = False
         fine = rng.random() < 0.2          # distinct timestamps that are relatively very close
+        bigint = (not fine) and rng.random() < 0.1    # int timestamps beyond 2**53 (ns clocks)
+        if bigint:
+            t = rng.choice([2 ** 53 + 1, 1790000000000000123, 2 ** 63 + 7])
         if fine:
             t = rng.choice([1000.0, 1e6, 86400.0 * 365])
         for _ in range(n):
             dt = rng.choice([0, 0, 0.5, 1, 1, 2, 0.25, 3.0])
             if fine:
                 dt = rng.choice([0, 1e-7, 1e-6, 1e-4, 2 ** -20, 1e-9 * t, 1.0])
+            if bigint:
+                dt = rng.choice([0, 1, 1, 3, 100, 255, 1000])
             t = t + dt
             ops.append(["reg", t, val()])
             r = rng.random()
@@ -268,13 +274,22 @@ def generate(seed, tier, idx=0):
                 # a closing call that must be refused (and leave the tally open)
                 ops.append(["badend", rng.choice(["regress", "regress_ulp", "nan", "str", "none"])])
             elif r < 0.25 and not closed:
-                t = t + (rng.choice([0, 0.5, 1, 4]) if not fine else rng.choice([0, 1e-6, 1e-7, 1.0]))
+                t = t + (rng.choice([0, 0.5, 1, 4]) if not (fine or bigint)
+                         else (rng.choice([0, 1e-6, 1e-7, 1.0]) if fine else rng.choice([0, 1, 7])))
                 ops.append(["end", t])
                 closed = True
         if not closed and rng.random() < 0.6:
-            t = t + (rng.choice([0, 0.5, 2]) if not fine else rng.choice([0, 1e-6, 1e-7, 2.0]))
+            t = t + (rng.choice([0, 0.5, 2]) if not (fine or bigint)
+                     else (rng.choice([0, 1e-6, 1e-7, 2.0]) if fine else rng.choice([0, 2, 9])))
             ops.append(["end", t])
-    return {"kind": kind, "variant": variant, "ops": ops, "quantities": rng.random() < 0.1}
+    case = {"kind": kind, "variant": variant, "ops": ops, "quantities": rng.random() < 0.1}
+    if kind == "timestamp" and bigint:
+        # exact int timestamps only make sense where nothing converts them: the plain
+        # tally fed plain ints
+        case["variant"] = "plain"
+        case["quantities"] = False
+        case["bigint"] = True
+    return case
 
 
 class Sub(EventListener):
@@ -417,9 +432,11 @@ def run(case):
                     "huge_weight": (10 ** 400, 1.0), "huge_time": (10 ** 400, 1.0),
                     "regress": ((last_t - 0.5) if last_t is not None else None, 1.0),
                     # earlier by one ulp / by a relative 1e-13: still earlier
-                    "regress_ulp": (math.nextafter(last_t, -math.inf)
+                    "regress_ulp": ((math.nextafter(last_t, -math.inf)
+                                     if isinstance(last_t, float) else last_t - 1)
                                     if last_t is not None else None, 1.0),
-                    "regress_rel": ((last_t - abs(last_t) * 1e-13)
+                    "regress_rel": ((last_t - abs(last_t) * 1e-13
+                                     if isinstance(last_t, float) else last_t - 1)
                                     if last_t is not None else None, 1.0)}[b]
             if b.startswith("regress") and (last_t is None or not args[0] < last_t):
                 continue
@@ -458,7 +475,9 @@ def run(case):
         elif name == "badend":
             if closed_at is not None or last_t is None:
                 continue
-            arg = {"regress": last_t - 0.5, "regress_ulp": math.nextafter(last_t, -math.inf),
+            arg = {"regress": last_t - 0.5 if isinstance(last_t, float) else last_t - 1,
+                   "regress_ulp": math.nextafter(last_t, -math.inf)
+                   if isinstance(last_t, float) else last_t - 1,
                    "nan": NANF, "str": "x", "none": None}[op[1]]
             before = text(read(st))
             try:
